@@ -361,9 +361,28 @@ type AuthService struct {
 	ntlm   *authntlm.NTLMAuth
 	Socket string
 	srv    *grpc.Server
+	// Gate, when set, makes the harness the scheduler of the backend's answers: every Authenticate call
+	// announces itself on Arrived and waits for a token on its user's Release channel.
+	Gate    bool
+	Arrived chan string
+	Release map[string]chan struct{}
 }
 
 func (a *AuthService) Authenticate(ctx context.Context, m *auth.UserPass) (*auth.AuthResponse, error) {
+	a.mu.Lock()
+	gate := a.Gate
+	var rel chan struct{}
+	if gate {
+		rel = a.Release[m.Username]
+	}
+	a.mu.Unlock()
+	if gate && rel != nil {
+		a.Arrived <- m.Username
+		select {
+		case <-rel:
+		case <-time.After(20 * time.Second):
+		}
+	}
 	a.mu.Lock()
 	defer a.mu.Unlock()
 	a.Calls = append(a.Calls, "basic:"+m.Username)
